@@ -17,7 +17,8 @@ RULE = ("Same data-first models and methods as C06 (objective constants, both se
         "P.objective.evaluate); the keys of values must be exactly the mentioned variables in natural order; "
         "s[var], s['name'], s.get(), s[vector] (also slices and reversed views) and s[matrix] (also transposed) "
         "must return the right shape and positions.  Non-trivial = objective constant != 0, or maximise, or >= 2 "
-        "variables whose natural order differs from declaration order.")
+        "variables whose natural order differs from declaration order."
+        '  Also: re-solves, orientation flipped by re-installing the same objective object, and pairs of different handles with equal derived names (x[:], x[::-1]; A[0,:], A[0,::-1]).')
 BUDGET = {"quick": {"workers": 16, "examples": 50}, "thorough": {"workers": 16, "examples": 1500}}
 ASSUMPTIONS = ["statuses without values or without an objective value are not constrained"]
 MANIFEST = {
